@@ -762,3 +762,20 @@ func init() {
 	mutant("late-handler-leaves-its-body-open", "teardown-lets-go", "serverConn.go", "				_ = ctx.Response.CloseBodyStream()\n			}\n		}()", "			}\n		}()")
 	mutant("dropped-response-under-a-running-handler", "teardown-lets-go", "serverConn.go", "	if strm.handlerRunning || strm.ctx == nil {\n		return\n	}\n\n	sc.closeBodyStream(strm)", "	if strm.ctx == nil {\n		return\n	}\n\n	sc.closeBodyStream(strm)")
 }
+
+func init() {
+	mutant("timed-out-stream-stays-in-the-table", "completion-closes-stream", "serverConn.go", "				strm.SetState(StreamStateClosed)\n				closeStream(strm)\n\n				deleteUntil--", "				strm.SetState(StreamStateClosed)\n\n				deleteUntil--")
+	mutant("self-dependent-priority-on-unknown-stream-ignored", "unknown-stream-classification", "serverConn.go", "					if fr.Body().(*Priority).Stream() == fr.Stream() {\n						sc.writeGoAway(fr.Stream(), ProtocolError, \"stream that depends on itself\")\n						break loop\n					}\n", "")
+}
+
+func init() {
+	mutant("cancel-keeps-the-slot", "client-lifecycle-shape", "conn.go", "	if c.takeReq(id) {\n		atomic.AddInt32(&c.openStreams, -1)\n	}\n\n	c.cancelStream(id, StreamCanceled)", "	c.takeReq(id)\n\n	c.cancelStream(id, StreamCanceled)")
+	mutant("cancel-does-not-reset-the-stream", "client-lifecycle-shape", "conn.go", "	c.cancelStream(id, StreamCanceled)\n}", "}")
+	mutant("cancel-keeps-the-pending-body", "client-lifecycle-shape", "conn.go", "	// resetting, and the buffer stops being ours as soon as RoundTrip returns.\n	c.deletePending(id)\n", "	// resetting, and the buffer stops being ours as soon as RoundTrip returns.\n")
+	mutant("cancel-resets-stream-zero", "client-lifecycle-shape", "conn.go", "	id := atomic.LoadUint32(&ctx.streamID)\n	if id == 0 {", "	id := atomic.LoadUint32(&ctx.streamID)\n	if id == 1<<31 {")
+	mutant("silent-server-never-given-up", "client-lifecycle-shape", "conn.go", "		if !c.disableAcks && atomic.LoadInt32(&c.unacks) >= 3 {", "		if !c.disableAcks && atomic.LoadInt32(&c.unacks) >= 3 && c.disableAcks {")
+	mutant("ping-acks-not-counted", "client-lifecycle-shape", "conn.go", "			} else {\n				atomic.AddInt32(&c.unacks, -1)\n			}", "			}")
+	mutant("unknown-frame-type-is-fatal-for-the-client", "client-lifecycle-shape", "conn.go", "			if errors.Is(err, ErrUnknownFrameType) {\n				err = nil\n				continue\n			}\n\n			break", "			break")
+	mutant("handshake-reads-an-empty-record", "client-lifecycle-shape", "conn.go", "			st.CopyTo(&c.serverS)\n", "")
+	mutant("second-close-panics", "client-lifecycle-shape", "conn.go", "	if !atomic.CompareAndSwapUint64(&c.closed, 0, 1) {\n		return false, io.EOF\n	}\n", "	atomic.StoreUint64(&c.closed, 1)\n")
+}
